@@ -19,7 +19,9 @@ EXPLANATION = (
     " indexed parallel map collected into a Vec, sequential sort, comparator on scores only. rayon's and std's own correctness and "
     'panics in workers are NOT decided. R1 accepts any number of integer counters, each behind its own lock (found by type), next to '
     "the result cache; R2 applies to all of them and tolerates a branch on a counter's value only when it decides nothing but what is "
-    'written back to that same counter (a running maximum); any other kind of shared mutable field is a violation.'
+    'written back to that same counter (a running maximum); any other kind of shared mutable field is a violation. R2 resolves guards '
+    'held in locals (also after a &mut use) to their lock; R1 objects only to mutable or interior-mutable statics that code reachable '
+    'from the tasks refers to.'
 )
 ASSUMPTIONS = [
     "rayon: collect() of an indexed parallel iterator preserves the order of the underlying slice",
